@@ -260,3 +260,19 @@ def big_dup_objects(rng, n=40):
             rng.shuffle(members)
         docs.append(('{' + ','.join('"%s":%d' % m for m in members) + '}').encode())
     return docs
+
+
+def hex_position_docs():
+    """a \\uXXXX escape with EVERY byte value in each of the four hex-digit positions (the table-driven hex decoder has per-byte failure modes:
+    a case fold that also maps control bytes onto digits, an off-by-one range bound, ...), in a string and in a key"""
+    docs = []
+    base = [b'0', b'0', b'4', b'1']
+    for pos in range(4):
+        for b in range(256):
+            g = base[:]
+            g[pos] = bytes([b])
+            e = b'\\u' + b''.join(g)
+            docs.append(b'"' + e + b'"')
+            if b % 4 == 0:
+                docs.append(b'{"a' + e + b'":[]}')
+    return docs
